@@ -1214,6 +1214,8 @@ class CInterp:
         raise Unsupported(f"unary {op}")
 
     def arith(self, op, a, b, is_float):
+        if a is None or b is None:
+            raise Unsupported("arithmetic on an uninitialised variable (undefined behaviour in C)")
         if isinstance(a, Ptr) or isinstance(b, Ptr):
             if op == "+":
                 return a.add(b) if isinstance(a, Ptr) else b.add(a)
